@@ -38,7 +38,9 @@ class Interp:
         self.types = facts.types
         self.st = SymTab()
         self.models = models
-        self.inv = invariants or {}
+        from .invariants import bind
+
+        self.inv = bind(invariants, facts)
         self.obls = {}
         self.notes = []  # UNMODELLED etc.
         self.trace = trace
